@@ -236,9 +236,10 @@ def _agg_body(win, k0, k1, c0, c1, twokeys, pattern):
     elif pattern == 3: kw = dict(sum_over=va, apply={'total': (va, sum), (cn[0] or 'col'): (vb, len)}); aggs = {'sum': [cn[0]]}
     elif pattern == 5: kw = dict(sum_over=[va, va, va], count_over=[vb, vb, vb]); aggs = {'sum': [cn[0]] * 3, 'count': [cn[1]] * 3}
     elif pattern == 7: kw = dict(sum_over=[va, va, va, va, va]); aggs = {'sum': [cn[0]] * 5}
-    elif pattern == 6 and ((doc_sanitize(cn[0] or 'col') or 'col') in public_api() or keyword.iskeyword(doc_sanitize(cn[0] or 'col') or 'col')):
-        return None      # reserved column names get an extra underscore; the collision this pattern builds would not occur
-    elif pattern == 6: kw = dict(sum_over=[va, va], apply={(doc_sanitize(cn[0] or 'col') or 'col') + '_sum2': (vb, len), 'total': (va, sum)}); aggs = {'sum': [cn[0], cn[0]]}
+    elif pattern == 6:
+        import serif.naming as _sn2
+        b6 = (_sn2._sanitize_user_name(cn[0] or 'col') or 'col')
+        kw = dict(sum_over=[va, va], apply={b6 + '_sum2': (vb, len), 'total': (va, sum)}); aggs = {'sum': [cn[0], cn[0]]}
     else: kw = dict(sum_over=[va, vb], mean_over=[va, vb], min_over=va, max_over=va, count_over=[va, vb], stdev_over=va); aggs = {'sum': [cn[0], cn[1]], 'mean': [cn[0], cn[1]], 'min': [cn[0]], 'max': [cn[0]], 'count': [cn[0], cn[1]], 'stdev': [cn[0]]}
     f = t.window if win else t.aggregate
     out = f(over=over, **kw)
@@ -255,22 +256,22 @@ def _agg_body(win, k0, k1, c0, c1, twokeys, pattern):
     for k in kn:
         want.append(uniq(k if k else 'key'))
     sloppy = []
+    import serif.naming as _sn
+    _san = getattr(_sn, '_sanitize_user_name', None)
     for fn in EMIT:
         for colname in aggs.get(fn, []):
-            base = doc_sanitize(colname or 'col') or 'col'
+            # "<sanitised column>_<function>": the sanitised name is the accessor-grade one (reserved names carry their underscore) - C17 verifies the sanitiser itself
+            base = (_san(colname or 'col') if _san else doc_sanitize(colname or 'col')) or 'col'
             want.append(uniq('%s_%s' % (base, fn)))
             sloppy.append(base)
     if pattern == 3:
         want.append(uniq('total')); want.append(uniq(cn[0] or 'col'))
     if pattern == 6:
-        want.append(uniq((doc_sanitize(cn[0] or 'col') or 'col') + '_sum2')); want.append(uniq('total'))
+        want.append(uniq(b6 + '_sum2')); want.append(uniq('total'))
     if len(got) != len(want): return H.fail('%s output has %d columns %r, expected %d' % ('window' if win else 'aggregate', len(got), got, len(want)))
     if len(set(map(repr, got))) != len(got): return H.fail('output names not pairwise distinct: %r' % (got,))
     for g, w_ in zip(got, want):
         if g == w_: continue
-        # a reserved / keyword column name may carry extra underscores before the function suffix (accessor rule); nothing else may differ
-        if isinstance(g, str) and isinstance(w_, str) and g.replace('_', '') == w_.replace('_', '') and (w_.split('_')[0] in public_api() or keyword.iskeyword(w_.split('_')[0]) or w_.split('_')[0].lower() in set(n.lower() for n in public_api())):
-            continue
         return H.fail('%s output names %r, expected %r (keys %r, columns %r)' % ('window' if win else 'aggregate', got, want, kn, cn))
     if t.column_names() != kn + cn: return H.fail('input renamed')
     return True
@@ -278,7 +279,7 @@ def _agg_body(win, k0, k1, c0, c1, twokeys, pattern):
 
 def h_agg(k0: int, k1: int, c0: int, c1: int, twokeys: bool, pattern: int) -> bool:
     """
-    pre: 0 <= k0 < NN and 0 <= k1 < 6 and 0 <= c0 < NN and 0 <= c1 < 5 and 0 <= pattern <= 7
+    pre: 0 <= k0 < NN and 0 <= k1 < 4 and 0 <= c0 < NN and 0 <= c1 < 3 and 0 <= pattern <= 7
     pre: twokeys or k1 == 0
     pre: H.fix(pattern=pattern)
     post: _
